@@ -1,7 +1,7 @@
 """C12 — symmetry, rigid-motion invariance, scaling (structural clauses)."""
 from . import scopes
 from ..core.report import DOMAIN_D
-from ..rules import colliders, generic2, frame, degree, mink, roles, affine, unpack, mirror, misc2, safediv
+from ..rules import onsegment, colliders, generic2, frame, degree, mink, roles, affine, unpack, mirror, misc2, safediv
 from .common import e2
 
 
@@ -34,6 +34,8 @@ def run(idx, rep, tier):
     mirror.r_tournament(idx, rep)
     mirror.r_boxface(idx, rep)
     misc2.r_dupcond(idx, rep, [m.name for m in idx.lib_modules()], floor=3)
+    generic2.r_rimpoint(idx, rep, [m.name for m in idx.lib_modules() if m.name.startswith("distance3d.distance")], floor=4)      # centre + radius * v is on the circle only for unit v
+    onsegment.r_clipsym(idx, rep, [x.name for x in idx.lib_modules() if x.name.startswith("distance3d.distance")], floor=4)
     colliders.r_roundtrip(idx, rep)      # rigid-motion covariance of colliders stored without a pose matrix: update_pose reads the slots collider2origin writes
     generic2.r_axispair(idx, rep, [m.name for m in idx.lib_modules()], floor=0)      # one site today; a vectorised test has no component pairs to mis-pair
     degree.r_tolunit(idx, rep, [m.name for m in idx.lib_modules() if "hydroelastic" not in m.name and "visual" not in m.name and "plot" not in m.name and "benchmark" not in m.name], floor=12, face_arrays=degree.EPA_FACES)
